@@ -13,6 +13,7 @@ import bisect
 import itertools
 import json
 import math
+import re
 import warnings
 
 from .. import impl_l1d as I
@@ -524,6 +525,30 @@ def run_case(cfg, rng=None, nstate=0, ops=None, prefix=(), plan=None):
 
 
 # ================================================================== the check
+def retry_killed(chk, shard, mism, legal, errors):
+    """Shards whose coqc was killed by a signal (out-of-memory killer on a loaded machine) are evaluated once
+    more, one at a time; everything else is passed through unchanged."""
+    from .. import coqio
+    from ..core import coqc_file, split_evals
+    left = []
+    for e in errors:
+        m = re.match(r"(cases_(\d+)\.v): rc=(-9|137|-15|143):", e)
+        if not m:
+            left.append(e)
+            continue
+        chk.log(f"{m.group(1)} was killed (rc={m.group(3)}); evaluating it again")
+        rc, out, _ = coqc_file(chk.work / m.group(1), 1800)
+        if rc != 0:
+            left.append(f"{m.group(1)}: rc={rc} (second attempt): {out[-800:]}")
+            continue
+        parts = split_evals(out)
+        k = int(m.group(2)) * shard
+        mism = sorted(mism + [(k + c, st) for c, st in coqio.parse_pairs(parts[0])])
+        if LEGAL_FN:
+            legal += coqio.parse_nat(parts[1])
+    return mism, legal, left
+
+
 def run(chk: Check) -> int:
     warnings.filterwarnings("ignore", category=RuntimeWarning)      # log(0) inside abs_min_log_loss
     if THEOREMS:
@@ -594,8 +619,9 @@ def run(chk: Check) -> int:
     chk.log(f"implementation side: {len(cases)} cases, {tot['asks']} asks checked by the oracle "
             f"({tot['brute']} also by brute force), failures {len(chk.failures)}")
     # ------------------------------------------------------------------ correspondence (comparison inside Coq)
-    shard = max(1, min(8, (len(cases) + 31) // 32)) if quick else 12
+    shard = max(1, min(8, (len(cases) + 31) // 32)) if quick else 4     # small shards: ~1 GB per coqc at most
     mism, legal, errors = chk.coq_cases("cases", I.PREAMBLE, "case", cases, "check", LEGAL_FN, shard=shard)
+    mism, legal, errors = retry_killed(chk, shard, mism, legal, errors)
     for e in errors:
         chk.broke("correspondence", "Model/L1D.v cases could not be evaluated", e[-600:])
     for c, s in mism[:5]:
